@@ -27,7 +27,7 @@ contract(O + "Destinations.remove", props=["C12"], types={"destination": "Any"},
 
 IS_REPORT_MSG = "dget(message, 'message_type') == 'eliot:destination_failure'"
 
-contract(O + "Destinations.send", props=["C08", "C12", "C07", "C13"],
+contract(O + "Destinations.send", props=["C08", "C12", "C07", "C13"], shards=6,
          types={"message": "dict", "logger": "Opt[role:ILogger]"}, returns="none",
          aliases={"ERRS": 0},
          ghosts={"NEW": "seqe", "NREP": "int", "REP": "seqe", "MORE": "seqe"},
